@@ -861,7 +861,6 @@ func (x *xl) call(c *ast.CallExpr) {
 		return
 	}
 	name := x.p.FuncName(f)
-	full := f.FullName()
 	pkgPath := ""
 	if f.Pkg() != nil {
 		pkgPath = f.Pkg().Path()
@@ -977,7 +976,7 @@ func (x *xl) call(c *ast.CallExpr) {
 		x.rd(recv)
 	}
 	x.argsOpaque(c.Args)
-	if i, ok := extWrites[full]; ok && i < len(c.Args) {
+	if i, ok := extWriteArg(f); ok && i < len(c.Args) {
 		x.elems(Wr, c.Args[i], c)
 		x.elems(Rd, c.Args[i], c)
 	}
